@@ -187,6 +187,8 @@ impl<T: Clone + 'static> Stream for VectorSubscriberBatchedStream<T> {
             Ok(msg) => {
                 let mut batch = msg.diffs.into_vec();
                 loop {
+                    #[cfg(eyeball_verif)]
+                    crate::verif::drain_point("batch_loop");
                     match rx.try_recv() {
                         Ok(msg) => append(&mut batch, msg.diffs),
                         Err(TryRecvError::Empty | TryRecvError::Closed) => {
@@ -215,6 +217,8 @@ impl<T: Clone + 'static> Stream for VectorSubscriberBatchedStream<T> {
 fn handle_lag<T: Clone + 'static>(rx: &mut Receiver<BroadcastMessage<T>>) -> Option<Vector<T>> {
     let mut msg = None;
     loop {
+        #[cfg(eyeball_verif)]
+        crate::verif::drain_point("handle_lag");
         match rx.try_recv() {
             // There's a newer message in the receiver's buffer, use that for reset.
             Ok(m) => {
